@@ -6,6 +6,10 @@ import Pearl.Proofs.EndToEndMetaReadAll
 import Pearl.Proofs.EndToEndMetaBytesStore
 import Pearl.Proofs.EndToEndMetaBytesSize
 import Pearl.Proofs.EndToEndMetaGhost
+import Pearl.Proofs.EndToEndStartStore
+import Pearl.Proofs.EndToEndStartOffloadBytes
+import Pearl.Proofs.EndToEndStartDir
+import Pearl.Props.C03b
 /-
 End-to-end read path: the composition of C01 (rank order / `prune_transparent`), C10 (filters and the
 hierarchical container never give a false negative), C09 (look-ups through the B+tree file image equal look-ups
@@ -41,7 +45,8 @@ Design decisions / findings (also in the report):
 * `C01.prune_transparent` takes a predicate on L2 blobs, while the container prunes by slot; the predicate used is
   "the blob is not among the consulted ones that pass `check_filter`", which needs blob ids to be distinct
   (`Store.WF`).
-Left out: metadata (`read_with`), bloom off-loading.
+Left out in this first part: metadata (`read_with`), bloom off-loading, index files at start-up — see the
+extensions further down.
 -/
 namespace Pearl.E2E
 open Pearl Pearl.BPTree Pearl.Container
@@ -939,10 +944,687 @@ end Pearl.E2E
 #print axioms Pearl.E2E.storeIdxSized_iff
 #print axioms Pearl.E2E.end_to_end_read_bytes_inputs
 
+/-! # Extension: start-up WITH index files
+
+Model: `Pearl/Model/EndToEndStart.lean` (new definitions only), on the byte-level storage `BState`:
+`openIndex` = `IndexStruct::from_file(name, cfg, io, blob_size)` on the bytes of an index file (`BPTreeFileIndex::from_file`:
+`read_index_header`, `read_tree_meta`, `check_file_size`, `read_root`; `validate(blob_size)`: `written` bit, version,
+key size, `blob_size` vs the length of the blob file, magic; `read_meta`; `deserialize_filters`), `fromFileB` =
+`Blob::from_file` (accepted → `State::OnDisk` with the deserialized filters and `bloom_offset`; rejected →
+`is_index_corrupted`, `Index::new`, `try_regenerate_index`), `loadIndexOrRegenB` = `Blob::load_index` (with the
+regeneration fallback), `BState.restartWithIndexes cfg sha c dir lazy` = close + `init` on a directory in which
+`dir id` is the content of the index file of blob `id` (ANY byte string) or `none`.
+Lemmas: `Pearl/Proofs/EndToEndStart.lean`, `Pearl/Proofs/EndToEndStartStore.lean`.
+
+The index-file choices of the theorem are `IdxChoice cfg sha recs idx` for a blob holding the records `recs`:
+`absent`; `current`: `idx = dumpedImage cfg sha recs`, the image `Blob::dump` leaves for a blob into which exactly `recs`
+were written; `stale n`: the image dumped when the blob held the strict prefix `recs.take n` (this is what is on disk
+after dump → `delete` (the index is loaded, the file stays) → the marker is appended); `rejected`: any bytes for which
+`openIndex` answers `rejected`.
+
+FINDING (start-up fails).  `Blob::from_file` sets `is_index_corrupted` for a rejected index file and then calls
+`try_regenerate_index` even when the blob file holds the header only; `RawRecords::start` then reads 16 bytes past the
+end of the file and `from_file` returns `Err`.  So a rejected index file next to a blob WITHOUT records (the fresh active
+blob) makes `Blob::from_file` fail, whereas the same blob without any index file is opened.  The storage itself never
+writes an index file for a blob without records (`dump_in_memory` returns at once for an empty map), so this needs a
+foreign / left-over file.  `end_to_end_restart_with_indexes` therefore states exactly when the start-up fails
+(`restart_with_indexes_fails_on_empty_blob` is the concrete witness) and `…_partial` is the statement under the
+hypothesis that excludes it.
+-/
+namespace Pearl.E2E
+open Pearl Pearl.BPTree Pearl.Container
+
+/-- in any state satisfying the invariant (with at least one blob, as on every run), for every directory of index
+    files that are absent, current, stale or rejected: the start-up with index files fails exactly when an index file
+    lies next to a blob without records; otherwise it returns the very storage the start-up WITHOUT index files
+    returns (`BState.restart`: every index regenerated by the L5 scan of the blob bytes), and every answer is the
+    answer before the restart -/
+theorem restart_with_indexes_of_inv {cfg : Cfg} {sha : List Nat → List Nat} (hB : BytesOK cfg sha) (c : CState)
+    (hinv : CInv cfg c) (hmeta : StoreMetaOK (c.abs cfg)) (hne : (c.abs cfg).blobs ≠ [])
+    (hsz : StoreIdxSized cfg (c.abs cfg)) (dir : Nat → Option (List Nat))
+    (hdir : ∀ b ∈ c.blobs, IdxChoice cfg sha b.ghost (dir b.id)) (lazy : Bool) :
+    ((c.toB sha).restartWithIndexes cfg sha dir lazy = none ↔
+      ∃ b ∈ c.blobs, b.ghost = [] ∧ (dir b.id).isSome = true) ∧
+    ∀ b', (c.toB sha).restartWithIndexes cfg sha dir lazy = some b' →
+      b' = (c.toB sha).restart cfg sha lazy ∧ SameAnswers cfg (c.toB sha) b' :=
+  restartWithIndexes_of_inv hB hinv hmeta hne hsz dir hdir lazy
+
+/-- **`end_to_end_restart_with_indexes`**: for every history of operations (with metadata) from the empty directory,
+    every choice of per-blob index-file bytes that is (i) the image the storage itself dumped for the current records
+    of the blob, (ii) the image dumped for a strict prefix of them (stale), or (iii) any byte string that the
+    validation of `Index::from_file` rejects (or no file), and both start-up modes:
+
+    * the start-up fails if and only if an index file lies next to a blob that holds no record (see the FINDING
+      above; with the choices (i)–(iii) such a file is necessarily a rejected one);
+    * otherwise the storage after the start-up IS the storage after the start-up without index files — accepted files
+      are used as they are, and what they hold is byte for byte what the regeneration from the blob file followed by a
+      dump produces; stale and rejected files are replaced by it — and the answers of `read` / `read_with`
+      (`readWithOpt`), `contains` / `contains_with`, `read_all_with_deletion_marker` and `read_all` equal those before
+      the restart (`SameAnswers`: equal results; for the two entry lists, equal views = key, timestamp, marker flag
+      and what `Entry::load` returns). -/
+theorem end_to_end_restart_with_indexes {cfg : Cfg} {sha : List Nat → List Nat} (hB : BytesOK cfg sha)
+    (ops : List MOp) (hops : ∀ op ∈ ops, op.OK cfg)
+    (hsz : StoreIdxSized cfg ((Store.init cfg.allowDup).run (ops.map MOp.abs)))
+    (dir : Nat → Option (List Nat))
+    (hdir : ∀ x ∈ ((Store.init cfg.allowDup).run (ops.map MOp.abs)).blobs, IdxChoice cfg sha x.recs (dir x.id))
+    (lazy : Bool) :
+    let b := (BState.init cfg).runB cfg sha ops
+    let s := (Store.init cfg.allowDup).run (ops.map MOp.abs)
+    (b.restartWithIndexes cfg sha dir lazy = none ↔ ∃ x ∈ s.blobs, x.recs = [] ∧ (dir x.id).isSome = true) ∧
+    ∀ b', b.restartWithIndexes cfg sha dir lazy = some b' →
+      b' = b.restart cfg sha lazy ∧ SameAnswers cfg b b' := by
+  intro b s
+  have hb : b = ((CState.init cfg).runM cfg ops).toB sha :=
+    runB_eq hB ops hops hsz.toStoreSized (idxSized_of_final hB.ok ops hops hsz)
+  obtain ⟨habs, hinv, hmeta⟩ := runM_ref hB.ok ops hops hsz.toStoreSized
+  have hne : (((CState.init cfg).runM cfg ops).abs cfg).blobs ≠ [] := by
+    rw [habs]; exact run_blobs_ne_nil _ _
+  have hdir' : DirChoice cfg sha ((CState.init cfg).runM cfg ops) dir :=
+    dirChoice_of_abs (by rw [habs]; exact hdir)
+  obtain ⟨h1, h2⟩ := restartWithIndexes_of_inv hB hinv hmeta hne (by rw [habs]; exact hsz) dir hdir' lazy
+  rw [hb]
+  refine ⟨?_, h2⟩
+  rw [h1, indexBesideEmpty_iff cfg, habs]
+
+/-- the statement under the hypothesis that excludes the failing case: no index file lies next to a blob without
+    records.  Then the start-up succeeds and no answer changes. -/
+theorem end_to_end_restart_with_indexes_partial {cfg : Cfg} {sha : List Nat → List Nat} (hB : BytesOK cfg sha)
+    (ops : List MOp) (hops : ∀ op ∈ ops, op.OK cfg)
+    (hsz : StoreIdxSized cfg ((Store.init cfg.allowDup).run (ops.map MOp.abs)))
+    (dir : Nat → Option (List Nat))
+    (hdir : ∀ x ∈ ((Store.init cfg.allowDup).run (ops.map MOp.abs)).blobs, IdxChoice cfg sha x.recs (dir x.id))
+    (hempty : ∀ x ∈ ((Store.init cfg.allowDup).run (ops.map MOp.abs)).blobs, x.recs = [] → dir x.id = none)
+    (lazy : Bool) :
+    ∃ b', ((BState.init cfg).runB cfg sha ops).restartWithIndexes cfg sha dir lazy = some b' ∧
+      b' = ((BState.init cfg).runB cfg sha ops).restart cfg sha lazy ∧
+      SameAnswers cfg ((BState.init cfg).runB cfg sha ops) b' := by
+  obtain ⟨h1, h2⟩ := end_to_end_restart_with_indexes hB ops hops hsz dir hdir lazy
+  cases hr : ((BState.init cfg).runB cfg sha ops).restartWithIndexes cfg sha dir lazy with
+  | none =>
+    obtain ⟨x, hx, he, hs⟩ := h1.mp hr
+    rw [hempty x hx he] at hs
+    cases hs
+  | some b' => exact ⟨b', rfl, h2 b' hr⟩
+
+/-- the answers after the start-up are therefore those of the specification -/
+theorem end_to_end_restart_with_indexes_spec {cfg : Cfg} {sha : List Nat → List Nat} (hB : BytesOK cfg sha)
+    (ops : List MOp) (hops : ∀ op ∈ ops, op.OK cfg)
+    (hsz : StoreIdxSized cfg ((Store.init cfg.allowDup).run (ops.map MOp.abs)))
+    (dir : Nat → Option (List Nat))
+    (hdir : ∀ x ∈ ((Store.init cfg.allowDup).run (ops.map MOp.abs)).blobs, IdxChoice cfg sha x.recs (dir x.id))
+    (lazy : Bool) (b' : BState)
+    (hb' : ((BState.init cfg).runB cfg sha ops).restartWithIndexes cfg sha dir lazy = some b') (k : Key) :
+    let h := ((Store.init cfg.allowDup).run (ops.map MOp.abs)).history
+    b'.readWithOpt cfg k none = .ok ((Spec.latest h k).map (fun p => dataOf p.r.data)) ∧
+    b'.containsWith cfg k none = .ok ((Spec.latest h k).map (·.r.ts)) ∧
+    (∀ m, MetaOK m →
+      b'.readWithOpt cfg k (some m) = .ok ((Spec.readWith h k m).map (fun p => dataOf p.r.data))) := by
+  intro h
+  obtain ⟨_, hsame⟩ := (end_to_end_restart_with_indexes hB ops hops hsz dir hdir lazy).2 b' hb'
+  obtain ⟨h1, h2, _, _⟩ := hsame k
+  have hspec := end_to_end_read_bytes_inputs hB ops hops hsz k
+  have hnone : ∀ x, (none : Option Meta) = some x → MetaOK x := by intro x hx; cases hx
+  refine ⟨by rw [h1 none hnone]; exact hspec.2.2.2.2.1, by rw [h2 none hnone]; exact hspec.2.2.2.2.2.1, ?_⟩
+  intro m hm
+  rw [h1 (some m) (by intro x hx; cases hx; exact hm)]
+  exact (hspec.2.2.2.2.2.2.1 m hm).1
+
+/-! ## what the validation checks, and the boundary of C03: (iv) accepted bytes that are not an image of the records -/
+
+/-- **what is checked** of an index file that the start-up uses (arbitrary bytes `img`, blob file of `blobSize`
+    bytes): it passes the C03b test `acceptIndex` — hence (C03b `accepted_has_declared_length`) its header has the
+    `written` bit, the current version, the compile-time key size, `blob_size =` the length of the blob file, the magic
+    number, `tree_offset ≤ leaves_offset`, and the file has exactly the length `records_count * record_header_size +
+    leaves_offset` its own header and tree meta declare, with header, filter section and tree meta inside it — and its
+    filter section deserializes (to the filters and `bloom_offset` the blob then uses).  NOTHING ELSE is looked at:
+    not the tree nodes, not the record headers, and not the `hash` (`validate`: "FIXME: check hash here?"; the hash is
+    compared by `get_records_headers` only, i.e. when the index is loaded into memory). -/
+theorem accepted_index_checked_fields {cfg : Cfg} {blobSize : Nat} {img : List Nat} {flt : Combined} {off : Nat}
+    (h : openIndex cfg blobSize img = .accepted flt off) :
+    acceptIndex cfg.klen blobSize img = true ∧
+    (∃ hd tm, readIndexHeader img = some hd ∧ readTreeMeta img hd = some tm ∧
+      hd.isWritten = true ∧ hd.version = indexHeaderVersion ∧ hd.keySize = cfg.klen ∧ hd.blobSize = blobSize ∧
+      hd.magic = magicByte ∧ tm.treeOffset ≤ tm.leavesOffset ∧
+      img.length = hd.recordsCount * hd.recordHeaderSize + tm.leavesOffset ∧
+      hd.serializedSize + hd.metaSize + treeMetaSize ≤ img.length) ∧
+    (∃ x mb, BIdx.fromFile img = some x ∧ x.readMeta = some mb ∧
+      combinedOfFile cfg.bloomIsOn mb = some (flt, off)) := by
+  obtain ⟨ha, x, mb, hx, _, hm, hc⟩ := openIndex_accepted h
+  exact ⟨ha, C03b.accepted_has_declared_length cfg.klen blobSize img ha, x, mb, hx, hm, hc⟩
+
+/-- conversely an index file that fails the C03b test is rejected, so every rejection theorem of C03b (truncated,
+    half-written, stale `blob_size`, other key size, other version: `damage_never_accepted`) is a case (iii) of
+    `end_to_end_restart_with_indexes` -/
+theorem rejected_of_c03b {cfg : Cfg} {blobSize : Nat} {img : List Nat}
+    (h : acceptIndex cfg.klen blobSize img = false) : openIndex cfg blobSize img = .rejected :=
+  openIndex_of_not_accept h
+
+/-! ## non-vacuity (start-up with index files) -/
+
+namespace DemoS
+
+/-- the byte-level storage after the seven operations of `DemoM.ops`: blob 0 was dumped after three records, then
+    `delete_with(only_if_presented)` loaded its index and appended a marker — the index file on disk is STALE -/
+def s : BState := (BState.init Demo.cfg).runB Demo.cfg DemoB.sha DemoM.ops
+
+/-- the records of blob 0 at the end -/
+def recs0 : List Rec :=
+  [⟨1, 5, false, some [7], ⟨2, 1⟩⟩, ⟨1, 6, false, none, ⟨1, 2⟩⟩, ⟨2, 4, false, some [9], ⟨1, 5⟩⟩,
+   ⟨2, 9, true, some [1], ⟨0, 0⟩⟩]
+def recs1 : List Rec := [⟨1, 7, false, some [8], ⟨3, 3⟩⟩]
+
+set_option maxRecDepth 1000000 in
+theorem blobs_eq : ((Store.init Demo.cfg.allowDup).run (DemoM.ops.map MOp.abs)).blobs
+    = [{ id := 0, recs := recs0 }, { id := 1, recs := recs1 }] := by decide
+
+/-- the directory a real run leaves: next to blob 0 the image dumped when it held its first three records (stale),
+    nothing next to the active blob 1 -/
+def dirStale : Nat → Option (List Nat)
+  | 0 => dumpedImage Demo.cfg DemoB.sha (recs0.take 3)
+  | _ => none
+
+/-- blob 0 with its CURRENT image (dumped by hand after the delete), a damaged file next to blob 1 -/
+def dirCurrent : Nat → Option (List Nat)
+  | 0 => dumpedImage Demo.cfg DemoB.sha recs0
+  | 1 => some [1, 2, 3]
+  | _ => none
+
+theorem isSome_choice {recs : List Rec} {o : Option (List Nat)} (h : o.isSome = true)
+    (hc : ∀ img, o = some img → IdxChoice Demo.cfg DemoB.sha recs (some img)) :
+    IdxChoice Demo.cfg DemoB.sha recs o := by
+  cases o with
+  | none => cases h
+  | some img => exact hc img rfl
+
+set_option maxRecDepth 1000000 in
+theorem dirStale_ok : ∀ x ∈ ((Store.init Demo.cfg.allowDup).run (DemoM.ops.map MOp.abs)).blobs,
+    IdxChoice Demo.cfg DemoB.sha x.recs (dirStale x.id) := by
+  rw [blobs_eq]
+  intro x hx
+  simp only [List.mem_cons, List.not_mem_nil, or_false] at hx
+  rcases hx with rfl | rfl
+  · exact isSome_choice (by decide +kernel) (fun img h => .stale 3 img (by decide) h)
+  · exact .absent
+
+set_option maxRecDepth 1000000 in
+theorem dirCurrent_ok : ∀ x ∈ ((Store.init Demo.cfg.allowDup).run (DemoM.ops.map MOp.abs)).blobs,
+    IdxChoice Demo.cfg DemoB.sha x.recs (dirCurrent x.id) := by
+  rw [blobs_eq]
+  intro x hx
+  simp only [List.mem_cons, List.not_mem_nil, or_false] at hx
+  rcases hx with rfl | rfl
+  · exact isSome_choice (by decide +kernel) (fun img h => .current img h)
+  · exact .rejected [1, 2, 3] (by decide +kernel)
+
+end DemoS
+
+-- evaluated: the stale file is 372 bytes long and is rejected for the blob file of 342 bytes; the current image is
+-- accepted; three junk bytes are rejected
+set_option maxRecDepth 1000000 in
+example : (DemoS.dirStale 0).map (·.length) = some 372 ∧ blobFileLen Demo.cfg DemoS.recs0 = 342 ∧
+    (DemoS.dirStale 0).map (openIndex Demo.cfg 342) = some .rejected ∧
+    (DemoS.dirStale 0).map (openIndex Demo.cfg 258) ≠ some .rejected ∧
+    ((DemoS.dirCurrent 0).map (openIndex Demo.cfg 342)).isSome = true ∧
+    (DemoS.dirCurrent 0).map (openIndex Demo.cfg 342) ≠ some .rejected ∧
+    openIndex Demo.cfg 107 [1, 2, 3] = .rejected := by decide +kernel
+
+-- evaluated: the start-up with the stale file regenerates and dumps blob 0; with the current file it uses it; the
+-- answers are those before the restart
+set_option maxRecDepth 1000000 in
+example : (DemoS.s.restartWithIndexes Demo.cfg DemoB.sha DemoS.dirStale false).map
+      (fun b => (b.readWithOpt Demo.cfg 2 none, b.readWithOpt Demo.cfg 1 (some (some [7])),
+        b.blobs.map (fun x => (x.id, x.index.onDisk))))
+      = some (.ok (.deleted 9), .ok (.found [1, 47]), [(0, true), (1, false)]) ∧
+    (DemoS.s.readWithOpt Demo.cfg 2 none, DemoS.s.readWithOpt Demo.cfg 1 (some (some [7])))
+      = (.ok (.deleted 9), .ok (.found [1, 47])) ∧
+    (DemoS.s.restartWithIndexes Demo.cfg DemoB.sha DemoS.dirCurrent true).map
+      (fun b => (b.readWithOpt Demo.cfg 2 none, b.blobs.map (fun x => (x.id, x.index.onDisk))))
+      = some (.ok (.deleted 9), [(0, true), (1, true)]) := by
+  refine ⟨?_, ?_, ?_⟩ <;> decide +kernel
+
+-- and by the theorem: for every key, every meta, both directories, both modes
+example (lazy : Bool) : ∃ b', DemoS.s.restartWithIndexes Demo.cfg DemoB.sha DemoS.dirStale lazy = some b' ∧
+    b' = DemoS.s.restart Demo.cfg DemoB.sha lazy ∧ SameAnswers Demo.cfg DemoS.s b' :=
+  end_to_end_restart_with_indexes_partial DemoB.ok DemoM.ops DemoM.ops_ok DemoB.store_idx_sized DemoS.dirStale
+    DemoS.dirStale_ok (by
+      rw [DemoS.blobs_eq]; intro x hx
+      simp only [List.mem_cons, List.not_mem_nil, or_false] at hx
+      rcases hx with rfl | rfl <;> intro h <;> cases h) lazy
+
+example (lazy : Bool) (k : Key) (m : Meta) (hm : MetaOK m) (b' : BState)
+    (h : DemoS.s.restartWithIndexes Demo.cfg DemoB.sha DemoS.dirCurrent lazy = some b') :
+    b'.readWithOpt Demo.cfg k (some m) = DemoS.s.readWithOpt Demo.cfg k (some m) :=
+  (((end_to_end_restart_with_indexes DemoB.ok DemoM.ops DemoM.ops_ok DemoB.store_idx_sized DemoS.dirCurrent
+    DemoS.dirCurrent_ok lazy).2 b' h).2 k).1 (some m) (by intro x hx; cases hx; exact hm)
+
+set_option maxRecDepth 1000000 in
+/-- the FINDING, evaluated: blob 0 closed, blob 1 the fresh active blob (header only).  Without index files the
+    start-up succeeds; with three junk bytes next to blob 1 — which the validation rejects — `Blob::from_file` of blob 1
+    fails (`RawRecords::start` reads past the end of the header-only file); the same junk next to blob 0 is harmless -/
+theorem restart_with_indexes_fails_on_empty_blob :
+    let ops : List MOp := [.write 1 5 none ⟨1, 1⟩, .closeActive, .createActive]
+    let b := (BState.init Demo.cfg).runB Demo.cfg DemoB.sha ops
+    ((Store.init true).run (ops.map MOp.abs)).blobs.map (fun x => (x.id, x.recs.length)) = [(0, 1), (1, 0)] ∧
+    openIndex Demo.cfg 20 [1, 2, 3] = .rejected ∧
+    b.restartWithIndexes Demo.cfg DemoB.sha (fun i => if i = 1 then some [1, 2, 3] else none) false = none ∧
+    (b.restartWithIndexes Demo.cfg DemoB.sha (fun _ => none) false).isSome = true ∧
+    (b.restartWithIndexes Demo.cfg DemoB.sha (fun i => if i = 0 then some [1, 2, 3] else none) false).isSome = true := by
+  decide +kernel
+
+namespace DemoS
+
+/-- (iv) the index file of blob 0 as dumped after its first three records, with ONE byte changed inside the third
+    record header (byte 330: the key byte, 2 → 3).  Header, filter section, tree meta and length are untouched. -/
+def badImg : List Nat := ((dumpedImage Demo.cfg DemoB.sha (recs0.take 3)).getD []).set 330 3
+
+end DemoS
+
+set_option maxRecDepth 1000000 in
+/-- **the boundary of C03** (`accepted_is_faithful_general_false` of C03b, composed): the changed file passes the
+    validation for the blob it was dumped for (`DemoB.s6`: blob 0 holds three records, 258 bytes) — the header
+    checks do not cover the record headers and the `hash` is not compared at start-up —, is used as it is, and the read
+    path then answers `NotFound` for key 2, which the blob holds (`Found` before the restart): the filters still pass
+    the key, the look-up in the index file does not find it.  The `hash` is compared only when the index is loaded
+    (`get_records_headers`: the next `delete` of a key of this blob, or `pop_active` for the last blob). -/
+theorem accepted_but_wrong_index :
+    DemoS.badImg.length = 372 ∧ (dumpedImage Demo.cfg DemoB.sha (DemoS.recs0.take 3)).map (·[330]?) = some (some 2) ∧
+    DemoB.s6.blobs.map (fun x => (x.id, x.file.length, x.index.onDisk)) = [(0, 258, true), (1, 107, false)] ∧
+    acceptIndex 1 258 DemoS.badImg = true ∧ openIndex Demo.cfg 258 DemoS.badImg ≠ .rejected ∧
+    openIndex Demo.cfg 258 DemoS.badImg ≠ .panic ∧
+    DemoB.s6.readWithOpt Demo.cfg 2 none = .ok (.found [5]) ∧
+    (DemoB.s6.restartWithIndexes Demo.cfg DemoB.sha (fun i => if i = 0 then some DemoS.badImg else none) false).map
+      (fun b => (b.readWithOpt Demo.cfg 2 none, b.readWithOpt Demo.cfg 2 (some (some [9]))))
+      = some (.ok .notFound, .ok .notFound) ∧
+    (DemoB.s6.restartWithIndexes Demo.cfg DemoB.sha (fun i => if i = 0 then some DemoS.badImg else none) false).map
+      (fun b => (b.readWithOpt Demo.cfg 1 none, b.blobs.map (fun x => (x.id, x.index.onDisk))))
+      = some (.ok (.found [3, 107, 223]), [(0, true), (1, false)]) := by
+  refine ⟨?_, ?_, ?_, ?_, ?_, ?_, ?_, ?_, ?_⟩ <;> decide +kernel
+
+set_option maxRecDepth 1000000 in
+/-- a second finding on arbitrary bytes: a file with a valid header whose filter section is shorter than the 8-byte
+    length prefix of the range filter passes `from_file` + `validate` + `read_meta`, and `deserialize_filters` then
+    panics in `split_at` — the start-up does not fall back to regeneration.  (99 bytes: header with `meta_size = 0`,
+    `records_count = 0`, `blob_size = 20`; tree meta `leaves_offset = tree_offset = 99`.) -/
+theorem index_with_short_filter_section_panics :
+    let hdr : List Nat := BPTree.leBytes 8 magicByte ++ BPTree.leBytes 8 0 ++ BPTree.leBytes 8 58 ++ BPTree.leBytes 8 0
+      ++ (BPTree.leBytes 8 32 ++ List.replicate 32 0) ++ [13] ++ BPTree.leBytes 2 1 ++ BPTree.leBytes 8 20
+    let img := hdr ++ BPTree.leBytes 8 99 ++ BPTree.leBytes 8 99
+    img.length = 99 ∧ acceptIndex 1 20 img = true ∧ openIndex Demo.cfg 20 img = .panic := by
+  decide +kernel
+
+end Pearl.E2E
+
+#print axioms Pearl.E2E.restart_with_indexes_of_inv
+#print axioms Pearl.E2E.end_to_end_restart_with_indexes
+#print axioms Pearl.E2E.end_to_end_restart_with_indexes_partial
+#print axioms Pearl.E2E.end_to_end_restart_with_indexes_spec
+#print axioms Pearl.E2E.accepted_index_checked_fields
+#print axioms Pearl.E2E.rejected_of_c03b
+#print axioms Pearl.E2E.restart_with_indexes_fails_on_empty_blob
+#print axioms Pearl.E2E.accepted_but_wrong_index
+#print axioms Pearl.E2E.index_with_short_filter_section_panics
+
+/-! # Extension: bloom off-loading as an operation
+
+Model: `Pearl/Model/EndToEndStart.lean`, part (b): `OOp` = the operations of `MOp`, `offloadBlob j`
+(`Blob::offload_buffer` of the closed blob in slot `j`: `index.offload_filter()`, the bit vector of the bloom filter of an
+on-disk index is dropped) and `offloadBuffer needed level` (`Storage::offload_buffer` = `HierarchicalFilters::
+offload_buffer` on the container of the closed blobs: `Container.offload`, children first, then the filters of the
+inner nodes); `CState.stepO / runO` on the structured storage, `BState.stepBO / runBO` on the byte-level storage.  An
+off-loaded bloom filter is probed by `Bloom::contains_in_file` through `read_meta_at(index + bloom_offset)`: on the
+structured index file `metaReadByte metaBuf off`, on the bytes `BIdx.readMetaAt` (`BBlob.checkFilter`).
+Lemmas: `Pearl/Proofs/EndToEndStartOffload{,Steps,Bytes}.lean`.
+
+Proof idea.  `CState.reload` replaces the filter of every blob by the filter of its records (what `load_index` or a
+restart reads back) and leaves the arena of the container alone.  `CInvO c` = `CInv (reload c)` and every blob filter is
+the filter of its records or — index on disk — that filter off-loaded.  Every read answers on `c` as on `reload c`
+(C10 `contains_offload_eq`: the file probe of the off-loaded filter = the fast check of the resident one), every
+operation commutes with `reload` (`stepM_reload`; node filters of the container may be off-loaded or dropped, which
+C10 `node_filter_sup_offload` allows), so the L2 state is the L2 state of the history without the off-loading calls.
+-/
+namespace Pearl.E2E
+open Pearl Pearl.BPTree Pearl.Container
+
+/-- off-loading is invisible to the abstraction: every operation with off-loading keeps `CInvO`, and the L2 state
+    moves by the L2 operation (not at all for the off-loading calls) -/
+theorem refinement_offload {cfg : Cfg} (hcfg : cfg.OK) (c : CState) (hinv : CInvO cfg c)
+    (hmeta : StoreMetaOK (c.abs cfg)) (op : OOp) (hop : op.OK cfg)
+    (hsz : StoreSized cfg.klen (op.applyAbs (c.abs cfg))) :
+    (c.stepO cfg op).abs cfg = op.applyAbs (c.abs cfg) ∧ CInvO cfg (c.stepO cfg op) ∧
+      StoreMetaOK ((c.stepO cfg op).abs cfg) :=
+  stepO_ref hcfg hinv hmeta op hop hsz
+
+/-- … along every history with off-loading interleaved, from the empty storage -/
+theorem refinement_offload_run {cfg : Cfg} (hcfg : cfg.OK) (ops : List OOp) (hops : ∀ op ∈ ops, op.OK cfg)
+    (hsz : StoreSized cfg.klen ((Store.init cfg.allowDup).run ((OOp.erase ops).map MOp.abs))) :
+    ((CState.init cfg).runO cfg ops).abs cfg = (Store.init cfg.allowDup).run ((OOp.erase ops).map MOp.abs) ∧
+      CInvO cfg ((CState.init cfg).runO cfg ops) :=
+  ⟨(runO_ref hcfg ops hops hsz).1, (runO_ref hcfg ops hops hsz).2.1⟩
+
+/-- in any state satisfying `CInvO`, every read of the structured storage answers as on the reloaded state, and the
+    byte-level storage answers as the structured one (the off-loaded filters being probed in the bytes of the index
+    files) -/
+theorem offload_reads_of_inv {cfg : Cfg} {sha : List Nat → List Nat} (hB : BytesOK cfg sha) (c : CState)
+    (hinv : CInvO cfg c) (hsz : StoreIdxSized cfg (c.abs cfg)) (k : Key) :
+    (∀ m, c.readWithOpt cfg k m = (c.reload cfg).readWithOpt cfg k m) ∧
+    (∀ m, c.containsWith cfg k m = (c.reload cfg).containsWith cfg k m) ∧
+    c.readAllMarked cfg k = (c.reload cfg).readAllMarked cfg k ∧ c.readAll cfg k = (c.reload cfg).readAll cfg k ∧
+    (∀ m, (c.toB sha).readWithOpt cfg k m = c.readWithOpt cfg k m) ∧
+    (∀ m, (c.toB sha).containsWith cfg k m = c.containsWith cfg k m) ∧
+    (c.toB sha).readAllMarked cfg k = c.readAllMarked cfg k ∧ (c.toB sha).readAll cfg k = c.readAll cfg k := by
+  have hg := goodB_of_store hB hinv hsz
+  exact ⟨fun m => (readWithOpt_reload hinv k m).symm, fun m => (containsWith_reload hinv k m).symm,
+    (readAllMarked_reload cfg c k).symm, (readAll_reload cfg c k).symm,
+    fun m => readWithOpt_toB_good hg k m, fun m => containsWith_toB_good hg k m,
+    readAllMarked_toB_good hg k, readAll_toB_good hg k⟩
+
+/-- **`end_to_end_offload_transparent`**: for every history of operations (with metadata) with off-loading calls —
+    `offloadBlob`, `offloadBuffer needed level` — interleaved anywhere, on the byte-level storage (dumped indexes held
+    as the bytes of their files, off-loaded bloom filters probed with `read_meta_at` on those bytes):
+
+    * the byte-level run is the translation of the structured run;
+    * NO ANSWER CHANGES: `read` / `read_with`, `contains` / `contains_with`, `read_all_with_deletion_marker`, `read_all`
+      answer as after the same history WITHOUT the off-loading calls (`SameAnswers`);
+    * hence they are the answers of the specification for the history without the off-loading calls. -/
+theorem end_to_end_offload_transparent {cfg : Cfg} {sha : List Nat → List Nat} (hB : BytesOK cfg sha)
+    (ops : List OOp) (hops : ∀ op ∈ ops, op.OK cfg)
+    (hsz : StoreIdxSized cfg ((Store.init cfg.allowDup).run ((OOp.erase ops).map MOp.abs))) :
+    let b := (BState.init cfg).runBO cfg sha ops
+    let b0 := (BState.init cfg).runB cfg sha (OOp.erase ops)
+    let h := ((Store.init cfg.allowDup).run ((OOp.erase ops).map MOp.abs)).history
+    b = ((CState.init cfg).runO cfg ops).toB sha ∧
+    SameAnswers cfg b0 b ∧
+    ∀ k,
+      b.readWithOpt cfg k none = .ok ((Spec.latest h k).map (fun p => dataOf p.r.data)) ∧
+      b.containsWith cfg k none = .ok ((Spec.latest h k).map (·.r.ts)) ∧
+      (∀ m, MetaOK m →
+        b.readWithOpt cfg k (some m) = .ok ((Spec.readWith h k m).map (fun p => dataOf p.r.data)) ∧
+        b.containsWith cfg k (some m) = .ok ((Spec.readWith h k m).map (·.r.ts))) ∧
+      (∃ es, b.readAllMarked cfg k = .ok es ∧ es.map entryView = (Spec.allCut h k).map (fun p => recView p.r)) ∧
+      (∃ es, b.readAll cfg k = .ok es ∧ es.map entryView = (Spec.allLive h k).map (fun p => recView p.r)) := by
+  intro b b0 h
+  have hb : b = ((CState.init cfg).runO cfg ops).toB sha := runBO_eq hB ops hops hsz
+  have hops0 := erase_ok hops
+  have hb0 : b0 = ((CState.init cfg).runM cfg (OOp.erase ops)).toB sha :=
+    runB_eq hB _ hops0 hsz.toStoreSized (idxSized_of_final hB.ok _ hops0 hsz)
+  obtain ⟨habs, hinv, hmeta⟩ := runO_ref hB.ok ops hops hsz.toStoreSized
+  obtain ⟨habs0, hinv0, hmeta0⟩ := runM_ref hB.ok (OOp.erase ops) hops0 hsz.toStoreSized
+  have hsame : SameAnswers cfg b0 b := by
+    rw [hb, hb0]
+    exact sameAnswers_of_abs hB hinv0.toCInvO hinv hmeta0 (by rw [habs0]; exact hsz) (by rw [habs, habs0])
+  refine ⟨hb, hsame, fun k => ?_⟩
+  have hspec := end_to_end_read_bytes_inputs hB (OOp.erase ops) hops0 hsz k
+  obtain ⟨s1, s2, ⟨e3, e3', h3, h3', v3⟩, ⟨e4, e4', h4, h4', v4⟩⟩ := hsame k
+  have hnone : ∀ x, (none : Option Meta) = some x → MetaOK x := by intro x hx; cases hx
+  refine ⟨by rw [s1 none hnone]; exact hspec.2.2.2.2.1, by rw [s2 none hnone]; exact hspec.2.2.2.2.2.1, ?_, ?_, ?_⟩
+  · intro m hm
+    have hsm : ∀ x, some m = some x → MetaOK x := by intro x hx; cases hx; exact hm
+    exact ⟨by rw [s1 (some m) hsm]; exact (hspec.2.2.2.2.2.2.1 m hm).1,
+      by rw [s2 (some m) hsm]; exact (hspec.2.2.2.2.2.2.1 m hm).2⟩
+  · obtain ⟨es, he, hv⟩ := hspec.2.2.2.2.2.2.2.1
+    refine ⟨e3', h3', ?_⟩
+    have : e3 = es := by
+      have := h3.symm.trans he
+      cases this; rfl
+    rw [v3, this, hv]
+  · obtain ⟨es, he, hv⟩ := hspec.2.2.2.2.2.2.2.2
+    refine ⟨e4', h4', ?_⟩
+    have : e4 = es := by
+      have := h4.symm.trans he
+      cases this; rfl
+    rw [v4, this, hv]
+
+/-- the same on the structured storage (index files as `IndexFile`, `read_meta_at` = `metaReadByte`) -/
+theorem end_to_end_offload_transparent_structured {cfg : Cfg} (hcfg : cfg.OK) (ops : List OOp)
+    (hops : ∀ op ∈ ops, op.OK cfg)
+    (hsz : StoreSized cfg.klen ((Store.init cfg.allowDup).run ((OOp.erase ops).map MOp.abs))) (k : Key) :
+    let c := (CState.init cfg).runO cfg ops
+    let c0 := (CState.init cfg).runM cfg (OOp.erase ops)
+    (∀ m, (∀ x, m = some x → MetaOK x) → c.readWithOpt cfg k m = c0.readWithOpt cfg k m) ∧
+    (∀ m, (∀ x, m = some x → MetaOK x) → c.containsWith cfg k m = c0.containsWith cfg k m) := by
+  intro c c0
+  obtain ⟨habs, hinv, hmeta⟩ := runO_ref hcfg ops hops hsz
+  obtain ⟨habs0, hinv0, hmeta0⟩ := runM_ref hcfg (OOp.erase ops) (erase_ok hops) hsz
+  have hmeta' : StoreMetaOK ((c.reload cfg).abs cfg) := by rw [reload_abs]; exact hmeta
+  refine ⟨fun m hm => ?_, fun m hm => ?_⟩
+  · rw [← readWithOpt_reload hinv, readWithOpt_eq hcfg hinv.inv hmeta' k m hm,
+      readWithOpt_eq hcfg hinv0 hmeta0 k m hm, reload_abs, habs, habs0]
+  · rw [← containsWith_reload hinv, containsWith_eq hcfg hinv.inv hmeta' k m hm,
+      containsWith_eq hcfg hinv0 hmeta0 k m hm, reload_abs, habs, habs0]
+
+/-- **start-up with index files after a history with off-loading**: the start-up does not look at the filters held
+    in memory; so from the state after ANY history with off-loading calls, and for every directory of absent / current
+    / stale / rejected index files, `restartWithIndexes` behaves as `end_to_end_restart_with_indexes` says, the storage
+    it returns is the translation of a state satisfying `CInv` (nothing off-loaded: the filters were re-read from the
+    index files or recomputed), and it is the state reached by the history `ops ++ [restart lazy]` — so any further
+    history, with further off-loading, is covered by `end_to_end_offload_transparent` again -/
+theorem end_to_end_offload_then_restart_with_indexes {cfg : Cfg} {sha : List Nat → List Nat} (hB : BytesOK cfg sha)
+    (ops : List OOp) (hops : ∀ op ∈ ops, op.OK cfg)
+    (hsz : StoreIdxSized cfg ((Store.init cfg.allowDup).run ((OOp.erase ops).map MOp.abs)))
+    (dir : Nat → Option (List Nat))
+    (hdir : ∀ x ∈ ((Store.init cfg.allowDup).run ((OOp.erase ops).map MOp.abs)).blobs,
+      IdxChoice cfg sha x.recs (dir x.id))
+    (lazy : Bool) :
+    let b := (BState.init cfg).runBO cfg sha ops
+    let s := (Store.init cfg.allowDup).run ((OOp.erase ops).map MOp.abs)
+    (b.restartWithIndexes cfg sha dir lazy = none ↔ ∃ x ∈ s.blobs, x.recs = [] ∧ (dir x.id).isSome = true) ∧
+    ∀ b', b.restartWithIndexes cfg sha dir lazy = some b' →
+      b' = b.restart cfg sha lazy ∧ b' = (BState.init cfg).runBO cfg sha (ops ++ [.op (.restart lazy)]) ∧
+      SameAnswers cfg b b' := by
+  intro b s
+  have hb : b = ((CState.init cfg).runO cfg ops).toB sha := runBO_eq hB ops hops hsz
+  obtain ⟨habs, hinv, hmeta⟩ := runO_ref hB.ok ops hops hsz.toStoreSized
+  have hne : (((CState.init cfg).runO cfg ops).abs cfg).blobs ≠ [] := by rw [habs]; exact run_blobs_ne_nil _ _
+  have hdir' : DirChoice cfg sha ((CState.init cfg).runO cfg ops) dir := dirChoice_of_abs (by rw [habs]; exact hdir)
+  obtain ⟨h1, h2⟩ := restartWithIndexes_of_invO hB hinv hmeta hne (by rw [habs]; exact hsz) dir hdir' lazy
+  rw [hb]
+  refine ⟨by rw [h1, indexBesideEmpty_iff cfg, habs], fun b' hb' => ?_⟩
+  obtain ⟨e1, _, _, e4⟩ := h2 b' hb'
+  refine ⟨e1, ?_, e4⟩
+  rw [e1]
+  show _ = List.foldl _ _ _
+  rw [List.foldl_append]
+  show _ = ((BState.init cfg).runBO cfg sha ops).stepBO cfg sha (.op (.restart lazy))
+  rw [runBO_eq hB ops hops hsz]
+  rfl
+
+/-- **the filters re-read at start-up probe the same bits**: for a blob of a state reached by any history (with
+    off-loading), the index file dumped for its records is accepted at start-up with the filter of the blob and the
+    `bloom_offset = 8 + |range filter|` that `serialize_filters` computed (`deserialize_filters` recomputes it from
+    the 8-byte length prefix), and when the re-read filter is off-loaded, the probes `read_meta_at(i + bloom_offset)`
+    on the BYTES of the file answer, for every key, exactly as the resident filter -/
+theorem reread_filters_probe_same_bits {cfg : Cfg} {sha : List Nat → List Nat} (hB : BytesOK cfg sha)
+    (ops : List OOp) (hops : ∀ op ∈ ops, op.OK cfg)
+    (hsz : StoreIdxSized cfg ((Store.init cfg.allowDup).run ((OOp.erase ops).map MOp.abs)))
+    (x : Blob) (hx : x ∈ ((Store.init cfg.allowDup).run ((OOp.erase ops).map MOp.abs)).blobs) (hne : x.recs ≠ []) :
+    ∃ mb off img, serializeFilters cfg.klen (filterOf cfg x.recs) = some (mb, off) ∧
+      dumpedImage cfg sha x.recs = some img ∧
+      openIndex cfg (blobFileLen cfg x.recs) img = .accepted (filterOf cfg x.recs) off ∧
+      ∀ k, ({ id := x.id, file := blobBytes cfg.klen (full x.recs), index := .disk img off,
+              filter := (filterOf cfg x.recs).offload.1 } : BBlob).checkFilter cfg k
+            = (filterOf cfg x.recs).containsFast cfg.h k := by
+  obtain ⟨habs, hinv, _⟩ := runO_ref hB.ok ops hops hsz.toStoreSized
+  rw [← habs, abs_blobs] at hx
+  obtain ⟨b, hb, rfl⟩ := List.mem_map.mp hx
+  have hR := hinv.blobInv hb
+  have h3 : Sized3 cfg b.ghost := by
+    have := hsz b.abs (by rw [← habs, abs_blobs]; exact List.mem_map.mpr ⟨b, hb, rfl⟩)
+    exact this
+  obtain ⟨mb, off, hs⟩ := serializeFilters_filterOf cfg b.ghost
+  have hne' : (b.reload cfg).ghost ≠ [] := hne
+  obtain ⟨p1, p2⟩ := reread_filter_probes (sha := sha) hB hR hne' h3 hs
+  have hok : RecsOK cfg b.ghost := hR.recsOK
+  have hfile : b.file = blobBytes cfg.klen (full b.ghost) := hR.file
+  have p1' : openIndex cfg b.file.length (imageRecs cfg sha b.ghost mb) = .accepted (filterOf cfg b.ghost) off := p1
+  have p2' : ∀ k, (BBlob.mk b.id b.file (.disk (imageRecs cfg sha b.ghost mb) off)
+      (filterOf cfg b.ghost).offload.1).checkFilter cfg k = (filterOf cfg b.ghost).containsFast cfg.h k := p2
+  show ∃ mb off img, serializeFilters cfg.klen (filterOf cfg b.ghost) = some (mb, off) ∧
+      dumpedImage cfg sha b.ghost = some img ∧
+      openIndex cfg (blobFileLen cfg b.ghost) img = .accepted (filterOf cfg b.ghost) off ∧
+      ∀ k, (BBlob.mk b.id (blobBytes cfg.klen (full b.ghost)) (.disk img off)
+              (filterOf cfg b.ghost).offload.1).checkFilter cfg k = (filterOf cfg b.ghost).containsFast cfg.h k
+  have hne2 : b.ghost ≠ [] := hne
+  refine ⟨mb, off, imageRecs cfg sha b.ghost mb, hs, ?_, ?_, ?_⟩
+  · rw [dumpedImage_eq sha hok, if_neg hne2, hs]
+    rfl
+  · rw [blobFileLen_eq hok, ← hfile]
+    exact p1'
+  · intro k
+    rw [← hfile]
+    exact p2' k
+
+/-! ## the storage WITH its directory of index files
+
+`runD` (`Pearl/Model/EndToEndStart.lean`) runs a history on the byte-level storage together with the directory of index
+files it leaves (`dirAfter`: a dump writes the file of the blob, nothing else touches one), and every `restart` of the
+history is the REAL start-up `restartWithIndexes` on the files that are there.  Lemmas: `Pearl/Proofs/EndToEndStartDir.lean`. -/
+
+/-- **`end_to_end_real_directory`**: for every history from the empty directory, with off-loading calls and restarts
+    anywhere: the index files the history leaves are, for every blob, absent, current or stale (never next to a blob
+    without records), so every start-up that reads them reaches the storage of the start-up that regenerates every
+    index: `runD` and `runBO` reach the SAME storage — whose answers are those of the specification
+    (`end_to_end_offload_transparent`) -/
+theorem end_to_end_real_directory {cfg : Cfg} {sha : List Nat → List Nat} (hB : BytesOK cfg sha)
+    (ops : List OOp) (hops : ∀ op ∈ ops, op.OK cfg)
+    (hsz : StoreIdxSized cfg ((Store.init cfg.allowDup).run ((OOp.erase ops).map MOp.abs))) :
+    ∃ dir', runD cfg sha (BState.init cfg, fun _ => none) ops = ((BState.init cfg).runBO cfg sha ops, dir') ∧
+      (∀ x ∈ ((Store.init cfg.allowDup).run ((OOp.erase ops).map MOp.abs)).blobs,
+        IdxChoice cfg sha x.recs (dir' x.id) ∧ (x.recs = [] → dir' x.id = none) ∧
+        (x.onDisk = true → dir' x.id = dumpedImage cfg sha x.recs)) ∧
+      (∀ id, (∀ x ∈ ((Store.init cfg.allowDup).run ((OOp.erase ops).map MOp.abs)).blobs, x.id ≠ id) →
+        dir' id = none) := by
+  obtain ⟨dir', h1, h2⟩ := runD_eq hB ops hops hsz
+  exact ⟨dir', h1, fun x hx => ⟨(h2.blob x hx).choice, (h2.blob x hx).empty, fun hd => ((h2.blob x hx).1 hd).2⟩,
+    h2.free⟩
+
+/-! ## non-vacuity (off-loading) -/
+
+namespace DemoO
+
+/-- blob 0 (keys 1 and 5) is closed and dumped; `offload_buffer(1000, 1)` drops its bloom buffer and the one of the
+    root node of the container; key 3 goes into the active blob; `offloadBlob 0` again (nothing left to free) -/
+def ops : List OOp :=
+  [.op (.write 1 5 none ⟨2, 1⟩), .op (.write 5 6 (some (some [4])) ⟨1, 2⟩), .op .closeActive, .op .settle,
+   .offloadBuffer 1000 1, .op (.write 3 7 none ⟨1, 9⟩), .offloadBlob 0]
+
+def s : BState := (BState.init Demo.cfg).runBO Demo.cfg DemoB.sha ops
+/-- before the off-loading -/
+def s4 : BState := (BState.init Demo.cfg).runBO Demo.cfg DemoB.sha (ops.take 4)
+
+theorem ops_ok : ∀ op ∈ ops, op.OK Demo.cfg := by decide
+
+set_option maxRecDepth 100000 in
+theorem store_idx_sized :
+    StoreIdxSized Demo.cfg ((Store.init Demo.cfg.allowDup).run ((OOp.erase ops).map MOp.abs)) := by
+  unfold StoreIdxSized; decide
+
+/-- `is_filter_offloaded` of the filters of the inner nodes of the container -/
+def nodesOffloaded (b : BState) : List (Option Bool) :=
+  b.cont.inner.map (fun o => match o with | some (FInner.node n) => n.filter.map Combined.isOffloaded | _ => none)
+
+end DemoO
+
+-- evaluated: `offload_buffer(1000, 1)` frees 32 bytes (16 of blob 0, 16 of the root node); afterwards the bloom filter of
+-- blob 0 is off-loaded and holds no memory, so is the filter of the root node
+set_option maxRecDepth 1000000 in
+example : (DemoO.s4.offloadBuffer Demo.cfg 1000 1).2 = 32 ∧ (DemoO.s4.offloadBuffer Demo.cfg 1000 0).2 = 16 ∧
+    DemoO.s4.blobs.map (fun b => (b.id, b.index.onDisk, b.filter.isOffloaded, b.filter.memoryAllocated))
+      = [(0, true, false, 16)] ∧
+    DemoO.s.blobs.map (fun b => (b.id, b.index.onDisk, b.filter.isOffloaded, b.filter.memoryAllocated))
+      = [(0, true, true, 0), (1, false, false, 16)] ∧
+    DemoO.nodesOffloaded DemoO.s4 = [some false, none] ∧ DemoO.nodesOffloaded DemoO.s = [some true, none] := by
+  refine ⟨?_, ?_, ?_, ?_, ?_, ?_⟩ <;> decide +kernel
+
+-- evaluated: the off-loaded filter of blob 0 still PRUNES — key 3 lies inside its range [1, 5] and the probe of the
+-- bytes of the index file answers `NotContains`, keys 1 and 5 pass; the reads find every record
+set_option maxRecDepth 1000000 in
+example : (DemoO.s.blobs.head?.map (fun b => (b.checkFilter Demo.cfg 1, b.checkFilter Demo.cfg 3, b.checkFilter Demo.cfg 5)))
+      = some (.needAdditionalCheck, .notContains, .needAdditionalCheck) ∧
+    DemoO.s.readWithOpt Demo.cfg 1 none = .ok (.found [1, 47]) ∧
+    DemoO.s.readWithOpt Demo.cfg 5 (some (some [4])) = .ok (.found [2]) ∧
+    DemoO.s.readWithOpt Demo.cfg 3 none = .ok (.found [9]) ∧
+    DemoO.s.readWithOpt Demo.cfg 4 none = .ok .notFound := by
+  refine ⟨?_, ?_, ?_, ?_, ?_⟩ <;> decide +kernel
+
+-- and by the theorem: for every key and meta, the answers of the history without the off-loading calls
+example (k : Key) (m : Meta) (hm : MetaOK m) :
+    DemoO.s.readWithOpt Demo.cfg k (some m) =
+      ((BState.init Demo.cfg).runB Demo.cfg DemoB.sha (OOp.erase DemoO.ops)).readWithOpt Demo.cfg k (some m) :=
+  (((end_to_end_offload_transparent DemoB.ok DemoO.ops DemoO.ops_ok DemoO.store_idx_sized).2.1 k).1 (some m)
+    (by intro x hx; cases hx; exact hm))
+
+example (k : Key) : DemoO.s.readWithOpt Demo.cfg k none =
+    .ok ((Spec.latest ((Store.init true).run ((OOp.erase DemoO.ops).map MOp.abs)).history k).map
+      (fun p => dataOf p.r.data)) :=
+  ((end_to_end_offload_transparent DemoB.ok DemoO.ops DemoO.ops_ok DemoO.store_idx_sized).2.2 k).1
+
+example : CInvO Demo.cfg ((CState.init Demo.cfg).runO Demo.cfg DemoO.ops) :=
+  (refinement_offload_run Demo.cfg_ok DemoO.ops DemoO.ops_ok DemoO.store_idx_sized.toStoreSized).2
+
+-- evaluated: start-up WITH the index file of blob 0 after the off-loading: the filter is re-read from the file (nothing
+-- is off-loaded any more); it is off-loaded again and still answers
+set_option maxRecDepth 1000000 in
+example :
+    let dir : Nat → Option (List Nat) := fun i =>
+      if i = 0 then dumpedImage Demo.cfg DemoB.sha [⟨1, 5, false, none, ⟨2, 1⟩⟩, ⟨5, 6, false, some [4], ⟨1, 2⟩⟩] else none
+    (DemoO.s.restartWithIndexes Demo.cfg DemoB.sha dir true).map
+      (fun b => (b.blobs.map (fun x => (x.id, x.index.onDisk, x.filter.isOffloaded)),
+        (b.offloadBuffer Demo.cfg 1000 1).1.readWithOpt Demo.cfg 5 (some (some [4]))))
+      = some ([(0, true, false), (1, true, false)], .ok (.found [2])) := by
+  decide +kernel
+
+set_option maxRecDepth 1000000 in
+/-- **the `bloom_offset` matters** (the 8-byte length prefix of the range filter): blob 0 of `DemoO` on the structured
+    storage, filter off-loaded.  Probing at `bloom_offset` passes keys 1 and 5; probing 8 bytes too early
+    (`bloom_offset` without the length prefix) or 8 bytes too late answers `NotContains` for keys the blob HOLDS — a
+    lost record.  So `deserialize_filters` must return exactly `8 + range_size`, which is what
+    `openIndex_current` / `reread_filters_probe_same_bits` prove it does. -/
+theorem bloom_offset_matters :
+    (((CState.init Demo.cfg).runO Demo.cfg DemoO.ops).blobs.head?.map (fun b =>
+      match b.index with
+      | .disk _ mb off =>
+        (off, b.filter.isOffloaded,
+          [b.filter.contains Demo.cfg.h (metaReadByte mb off) 1, b.filter.contains Demo.cfg.h (metaReadByte mb off) 5,
+           b.filter.contains Demo.cfg.h (metaReadByte mb (off - 8)) 1,
+           b.filter.contains Demo.cfg.h (metaReadByte mb (off - 8)) 5,
+           b.filter.contains Demo.cfg.h (metaReadByte mb (off + 8)) 1])
+      | .mem _ => (0, false, [])))
+    = some (27, true, [.needAdditionalCheck, .needAdditionalCheck, .notContains, .notContains, .notContains]) := by
+  decide +kernel
+
+-- the directory, evaluated on `DemoM.ops` (blob 0 dumped after three records, then re-loaded by a delete that appends a
+-- marker): the file of blob 0 is the STALE image; after a (real) restart it is the current one; nothing lies next to
+-- the active blob; and the storage is the one of the model
+set_option maxRecDepth 1000000 in
+example :
+    let ops : List OOp := DemoM.ops.map OOp.op
+    let st := runD Demo.cfg DemoB.sha (BState.init Demo.cfg, fun _ => none) ops
+    let st' := runD Demo.cfg DemoB.sha (BState.init Demo.cfg, fun _ => none) (ops ++ [.op (.restart false)])
+    st.2 0 = dumpedImage Demo.cfg DemoB.sha (DemoS.recs0.take 3) ∧ (st.2 0).isSome = true ∧ st.2 1 = none ∧
+    st.1.blobs.map (fun b => (b.id, b.index.onDisk)) = [(0, false), (1, false)] ∧
+    st'.2 0 = dumpedImage Demo.cfg DemoB.sha DemoS.recs0 ∧ st'.2 0 ≠ st.2 0 ∧ st'.2 1 = none ∧
+    st'.1.blobs.map (fun b => (b.id, b.index.onDisk)) = [(0, true), (1, false)] ∧
+    st'.1.readWithOpt Demo.cfg 2 none = .ok (.deleted 9) := by
+  refine ⟨?_, ?_, ?_, ?_, ?_, ?_, ?_, ?_, ?_⟩ <;> decide +kernel
+
+example : ∃ dir', runD Demo.cfg DemoB.sha (BState.init Demo.cfg, fun _ => none) DemoO.ops = (DemoO.s, dir') :=
+  let ⟨d, h, _⟩ := end_to_end_real_directory DemoB.ok DemoO.ops DemoO.ops_ok DemoO.store_idx_sized
+  ⟨d, h⟩
+
+end Pearl.E2E
+
+#print axioms Pearl.E2E.end_to_end_real_directory
+#print axioms Pearl.E2E.bloom_offset_matters
+#print axioms Pearl.E2E.refinement_offload
+#print axioms Pearl.E2E.refinement_offload_run
+#print axioms Pearl.E2E.offload_reads_of_inv
+#print axioms Pearl.E2E.end_to_end_offload_transparent
+#print axioms Pearl.E2E.end_to_end_offload_transparent_structured
+#print axioms Pearl.E2E.end_to_end_offload_then_restart_with_indexes
+#print axioms Pearl.E2E.reread_filters_probe_same_bits
+
 /-
 NOT YET PROVED
-* bloom off-loading (`offload_buffer`) is not part of the concrete operations (the `read_meta_at` path that an
-  off-loaded filter uses is modelled and proved at byte level, `checkFilter_toB`, but no operation off-loads);
 * concurrency: the concrete operations are sequential (the read-side LTS of C08 is not composed with the bytes);
 * byte level of the index file (section (8)): SHA-256 is not modelled — `hash` is an uninterpreted 32-byte field, so
   the check `hash_valid` of `get_records_headers` is the one step of the index code that `BIdx.load` does not perform;
@@ -952,6 +1634,25 @@ NOT YET PROVED
   times the blob file; the exact condition is `IdxSized`, used by `end_to_end_read_bytes`);
 * the meta maps have at most one entry (as in the L5 model); `Meta` equality of `filter_entries` is equality of the
   deserialised entry lists, which coincides with `HashMap` equality only for such maps;
-* restart WITH index files (`from_file` + `acceptIndex` of C03b deciding between the byte image and regeneration) is
-  not composed: `restart` drops the index files, as in the first part.
+* start-up WITH index files (`end_to_end_restart_with_indexes`):
+  - the directory of index files is an argument of `restartWithIndexes` and the theorem quantifies over every choice
+    of absent / current / stale / rejected files per blob; `end_to_end_real_directory` proves that the directory a
+    history itself leaves behind (`runD`: dumps write files, nothing removes one) is always absent / current / stale.
+    External damage between close and `init` is the quantified case (iii); a crash in the middle of a dump
+    (`written` bit clear, truncated) is C03b `damage_never_accepted`, i.e. rejected, i.e. case (iii);
+  - case (iv), accepted bytes that are not an image of the records, is outside the theorem: what the validation
+    checks is `accepted_index_checked_fields`, and `accepted_but_wrong_index` is a one-byte change inside a record
+    header that passes it and loses a record (the boundary of C03; C03b `accepted_is_faithful_general_false`).  For the
+    LAST blob with `lazy = false` the Rust code calls `load_index`, whose hash check would catch it and regenerate;
+    `loadIndexOrRegenB` has that fallback but, the hash being uninterpreted, never takes it for this reason;
+  - FINDING `restart_with_indexes_fails_on_empty_blob`: a rejected index file next to a blob file that holds the
+    header only makes `Blob::from_file` fail (the storage then quarantines or reports the blob; that path —
+    `should_save_corrupted_blob`, `ignore_corrupted` — is not modelled here, `restartWithIndexes` answers `none`);
+  - FINDING `index_with_short_filter_section_panics`: a file that passes the header checks but whose filter section
+    is shorter than its own length prefix makes `deserialize_filters` panic (`split_at`) instead of being rejected;
+  - `bloom_is_on` changing between the dump and the start-up (an index written with a bloom filter opened by a
+    configuration without one, or the converse) is not covered: the configuration is the same before and after;
+* bloom off-loading (`end_to_end_offload_transparent`): the `freed` count returned by `offload_buffer` is modelled
+  (`offloadBuffer … .2`, equal at both levels: `offloadBuffer_toB`) but nothing is proved about its value;
+  `filter_memory_allocated` is not composed.
 -/
